@@ -799,7 +799,7 @@ mod matching {
             .map(|n| usize::try_from(*n).ok())
             .collect();
 
-            if n > upper_bounds.len() {
+            if n >= upper_bounds.len() {
                 return (0, None);
             }
 
